@@ -3,6 +3,7 @@ package eng
 import (
 	"fmt"
 	"regexp/syntax"
+	"unicode"
 
 	"golang.org/x/tools/go/ssa"
 )
@@ -145,3 +146,53 @@ func (p *Program) GlobalRegexPattern(rel, global string) (string, bool) {
 	})
 	return pat, found
 }
+
+// RegexAlphabet returns the set of runes that can occur in any string the
+// expression matches, provided the expression is anchored at both ends (so a
+// match is the whole string) and uses only literals, classes, grouping,
+// alternation and repetition. Any-character operators are an error.
+func RegexAlphabet(pattern string) (RuneSet, bool, error) {
+	re, err := syntax.Parse(pattern, syntax.Perl)
+	if err != nil {
+		return nil, false, err
+	}
+	var out RuneSet
+	var walk func(r *syntax.Regexp) error
+	walk = func(r *syntax.Regexp) error {
+		switch r.Op {
+		case syntax.OpEmptyMatch, syntax.OpBeginText, syntax.OpEndText:
+			return nil
+		case syntax.OpLiteral:
+			for _, c := range r.Rune {
+				out = append(out, c, c)
+				if r.Flags&syntax.FoldCase != 0 {
+					for f := unicodeSimpleFold(c); f != c; f = unicodeSimpleFold(f) {
+						out = append(out, f, f)
+					}
+				}
+			}
+			return nil
+		case syntax.OpCharClass:
+			out = append(out, r.Rune...)
+			return nil
+		case syntax.OpCapture, syntax.OpPlus, syntax.OpStar, syntax.OpQuest, syntax.OpRepeat, syntax.OpConcat, syntax.OpAlternate:
+			for _, s := range r.Sub {
+				if err := walk(s); err != nil {
+					return err
+				}
+			}
+			return nil
+		}
+		return fmt.Errorf("unsupported operator %v", r.Op)
+	}
+	if err := walk(re); err != nil {
+		return nil, false, err
+	}
+	anchored := false
+	if re.Op == syntax.OpConcat && len(re.Sub) >= 2 {
+		anchored = re.Sub[0].Op == syntax.OpBeginText && re.Sub[len(re.Sub)-1].Op == syntax.OpEndText
+	}
+	return out, anchored, nil
+}
+
+func unicodeSimpleFold(r rune) rune { return unicode.SimpleFold(r) }
